@@ -238,6 +238,17 @@ def main(tier, replay=None):
         for tail in [(so,) + w for so in ("see-other", "see-other+close") for d in (1, 2) for w in itertools.product(["H1", "Fbind", "Fmech", "Fempty", "Ftls", "iq-get-version", "message"], repeat=d)]:
             jobs.append((authed + tail, cfg))
             jobs.append((authed + ("Fbind", "iq-result") + tail, cfg))
+    # the same with a session that is completely established (bound, roster fetched, optionally stream management) when the redirect arrives:
+    # whatever the client remembers of that session, the new link is plain until STARTTLS has been done there
+    for with_sm in (True, False):
+        est = ("H1", "Ftls+mech", "proceed", "TLS", "H1", "Fplain", "success", "H1", "Fbind", "bind-result") + (("sm-enabled",) if with_sm else ()) + ("roster-result",)
+        for cfg in ("default", "receipts", "keepalive"):
+            for so in ("see-other", "see-other+close"):
+                for d in ((1, 2) if cfg == "default" else (1,)):
+                    for w in itertools.product(["H1", "Fmech", "Ftls", "iq-get-version", "message", "Fbind"], repeat=d):
+                        jobs.append((est + (so,) + w, cfg))
+                        if d == 1:
+                            jobs.append((est + (so, "H1") + w, cfg))
     # timers that outlive a session: keep-alive pings, a resumable stream-management session, a lost connection, and a second connection on
     # which the server takes its time at every point before the link is encrypted
     session = ("H1", "Ftls+mech", "proceed", "TLS", "H1", "Fplain", "success", "H1", "Fbind", "bind-result", "sm-enabled", "roster-result")
